@@ -421,7 +421,7 @@ def in_child(fn):
 
 def reuse_cases(ctx, mk):
     rng = ctx.rng
-    for c in range(ctx.n(120, 2400)):
+    for c in range(ctx.n(120, 1200)):
         form = rng.choice(["offset", "offset", "offset", "poly", "multi", "geojson"])
         how = rng.choice(["get_location.same_spec", "get_location.shared_coords", "make_release.groups_same_spec",
                           "make_release.groups_shared_coords", "make_release.twice"])
